@@ -16,8 +16,35 @@ import (
 // detect accesses to unmapped counter-file memory).
 var AddrCheck func(addr uintptr, kind string)
 
+// AfterCAS64, if set, is told about every 64-bit compare-and-swap a harness
+// thread performed (used to account for completed cell additions).
+var AfterCAS64 func(addr uintptr, old, new uint64, ok bool)
+
+// SharedOnly, if set, restricts scheduling points to addresses for which it
+// reports true. Used when every emulated process has a single thread, so
+// that operations on process-private words commute with everything another
+// process can do (a sound partial-order reduction).
+var SharedOnly func(addr uintptr) bool
+
+// Budget, when positive, is the number of atomic operations the code may
+// still perform outside the scheduler before BudgetExceeded is raised. It
+// makes unbounded loops over file words visible without any wall clock.
+var Budget int64
+
+// BudgetExceeded is the panic value raised when Budget runs out.
+type BudgetExceeded struct{}
+
 func pre(kind string, p unsafe.Pointer) {
 	if !sched.Active() {
+		if Budget > 0 {
+			Budget--
+			if Budget == 0 {
+				panic(BudgetExceeded{})
+			}
+		}
+		return
+	}
+	if SharedOnly != nil && !SharedOnly(uintptr(p)) {
 		return
 	}
 	sched.Point(kind, uintptr(p))
@@ -68,6 +95,9 @@ func (x *Uint64) CompareAndSwap(old, new uint64) bool {
 	pre("cas64", unsafe.Pointer(x))
 	r := x.v.CompareAndSwap(old, new)
 	sched.Observe(b2u(r))
+	if AfterCAS64 != nil && sched.Active() {
+		AfterCAS64(uintptr(unsafe.Pointer(x)), old, new, r)
+	}
 	return r
 }
 func (x *Uint64) Add(d uint64) uint64 {
